@@ -34,6 +34,10 @@ func (v *AddPublicKeysValidator) Validate(p patch.Patch) error {
 		return fmt.Errorf("invalid add public keys value: %s", err.Error())
 	}
 
+	if err := getObjects(value, "public keys"); err != nil {
+		return err
+	}
+
 	publicKeys := document.ParsePublicKeys(value)
 
 	return validatePublicKeys(publicKeys)
